@@ -126,6 +126,11 @@ class _Parameter:
 
     def __set__(self, instance, value):
         self._checker(value)
+        if isinstance(value, np.ndarray):
+            # The parameter owns its values: an in-place edit of the caller's array must not
+            # change the law without notice. Integer arrays are stored as floats (products
+            # of moduli in Pa overflow int64).
+            value = value.astype(float) if value.dtype.kind in "iu" else value.copy()
         instance.__dict__[self.__name] = value
         if isinstance(instance, Updatable):
             instance.Need_Update()
